@@ -14,6 +14,13 @@ def ev(event):
     return (event.name, uid)
 
 
+class Box:
+    """a plain mutable user object kept in the context (hashable by identity, not immutable)"""
+
+    def __init__(self, n=0):
+        self.n = n
+
+
 class Probe:
     def __init__(self, tag=''):
         self.tag = tag
@@ -25,6 +32,9 @@ class Probe:
         self.fail_at = None    # occurrence number (1-based) of the contract evaluation made false
         self.cond_truth = None  # optional dict cond id -> bool
         self.on_probe = None   # optional hook(kind) called at every probe (clock moves inside steps)
+
+    def newbox(self, n=0):
+        return Box(n)
 
     def _hook(self, kind):
         if self.on_probe is not None:
@@ -80,7 +90,7 @@ class Probe:
 
     def cond(self, j, v, old, event):
         self.cond_n += 1
-        self.log.append(('cond', j, v, None if old is None else (old.v, len(old.w)), ev(event), self.cond_n))
+        self.log.append(('cond', j, v, None if old is None else (old.v, len(old.w), len(old.u[0]), old.box.n), ev(event), self.cond_n))
         self._hook('cond')
         if self.fail_at is not None and self.cond_n == self.fail_at:
             return False
